@@ -25,14 +25,15 @@ import (
 // time, so "the k-th resolver is blocked" is a fact, not a sleep.
 
 type CancelCase struct {
-	Query    string `json:"query"`              // index into c16Queries, as text
-	N        int    `json:"n"`                  // gated resolver invocations in the query
-	CancelAt int    `json:"cancelAt"`           // -1 before the call; 0..N-1 while that resolver is blocked; N after the last returned; N+1 never; N+2 racing the last gate
-	Kind     string `json:"kind"`               // cancel | deadline
-	Entry    string `json:"entry"`              // do | plan
-	Observe  []int  `json:"observe,omitempty"`  // gated resolvers that watch the context and fail when it ends
-	StockCtx bool   `json:"stockCtx,omitempty"` // use context.WithCancel / WithDeadline instead of the harness context
-	Cause    bool   `json:"cause,omitempty"`    // with StockCtx: the cancellation / deadline carries a cause (WithCancelCause / WithDeadlineCause)
+	Query      string `json:"query"`                // index into c16Queries, as text
+	N          int    `json:"n"`                    // gated resolver invocations in the query
+	CancelAt   int    `json:"cancelAt"`             // -1 before the call; 0..N-1 while that resolver is blocked; N after the last returned; N+1 never; N+2 racing the last gate
+	Kind       string `json:"kind"`                 // cancel | deadline
+	Entry      string `json:"entry"`                // do | plan
+	Observe    []int  `json:"observe,omitempty"`    // gated resolvers that watch the context and fail when it ends
+	StockCtx   bool   `json:"stockCtx,omitempty"`   // use context.WithCancel / WithDeadline instead of the harness context
+	OwnTimeout []int  `json:"ownTimeout,omitempty"` // gated resolvers that, once released, fail with their own sub-context's deadline error (the request's context is not involved)
+	Cause      bool   `json:"cause,omitempty"`      // with StockCtx: the cancellation / deadline carries a cause (WithCancelCause / WithDeadlineCause)
 }
 
 // manualCtx is a context whose Done channel the harness closes.
@@ -152,6 +153,13 @@ func c16Oracle(c *CancelCase) (msg string) {
 	for _, o := range c.Observe {
 		observe[o] = true
 	}
+	ownTimeout := map[int]bool{}
+	for _, o := range c.OwnTimeout {
+		if !observe[o] && o < n {
+			ownTimeout[o] = true
+			w.Outcomes[q.Gates[o]] = ref.Outcome{Kind: "err_ctx"}
+		}
+	}
 	var ctx context.Context
 	var end func()
 	wantErr := context.Canceled
@@ -212,6 +220,13 @@ func c16Oracle(c *CancelCase) (msg string) {
 			return
 		}
 		<-gates[k]
+		if ownTimeout[k] {
+			// the resolver then fails with its own sub-context's deadline error (World outcome
+			// err_ctx below): an ordinary field error
+			failedMu.Lock()
+			failed[ref.PathKey(path)] = true
+			failedMu.Unlock()
+		}
 	}
 	rctx := build.WithSession(ctx, sess)
 	if c.CancelAt == -1 {
@@ -353,7 +368,7 @@ func c16Oracle(c *CancelCase) (msg string) {
 		if m := isComplete(res); m != "" {
 			return "no cancellation before completion, but the response is not the complete normal response: " + m
 		}
-		if len(res.Errors) != 0 {
+		if len(res.Errors) != 0 && len(ownTimeout) == 0 {
 			return fmt.Sprintf("uncancelled execution returned errors: %v", res.Errors)
 		}
 	default: // racing the last gate
@@ -407,6 +422,8 @@ func TestC16(t *testing.T) {
 		for i := 0; i < n; i++ {
 			if gen.Chance(rt, 25, "observe") {
 				c.Observe = append(c.Observe, i)
+			} else if gen.Chance(rt, 20, "ownTimeout") {
+				c.OwnTimeout = append(c.OwnTimeout, i)
 			}
 		}
 		msg := c16Oracle(c)
